@@ -17,22 +17,32 @@
 
    Two further switches, in the style of fix_i/ii/iii of Tracker.v:
 
-     fix_cap = false : code as it is — `new id > max_tracks` raises Exception in
-                       the middle of add_new_tracks (and max_tracks + 1 tracks
-                       can exist: ids 0..max_tracks);
-               true  : proposed repair (proposed_fixes/C09_F4cap.diff) — a new
-                       track is created only while `new id < max_tracks`; the
-                       detection is otherwise returned without a track.
-     fix_iv  = false : code as it is — update_tracks does nothing when the
-                       matcher returned no pair (every score NaN): detections are
-                       dropped (fixed window) / returned without track (local
-                       queues), no new track is created;
-               true  : proposed repair (proposed_fixes/C09_F4iv.diff) — the frame
-                       is then treated like a first frame (add_new_tracks).
+     fix_cap = false : PINNED tree (before fix 6da44fb) — `new id > max_tracks`
+                       raises Exception in the middle of add_new_tracks (and
+                       max_tracks + 1 tracks can exist: ids 0..max_tracks);
+               true  : CURRENT tree (/repo since 6da44fb = proposed_fixes/
+                       C09_F4cap.diff) — a new track is created only while
+                       `new id < max_tracks`; the detection is otherwise returned
+                       without a track.
+     fix_iv  = false : PINNED tree (before fix afd312c) — update_tracks does
+                       nothing when the matcher returned no pair (every score
+                       NaN): detections are dropped (fixed window) / returned
+                       without track (local queues), no new track is created;
+               true  : CURRENT tree (/repo since afd312c = proposed_fixes/
+                       C09_F4iv.diff) — the frame is then treated like a first
+                       frame (`else: add_new_tracks(current_instances)`).
+   The harness detects which variant the code under test has by replaying the
+   corpus witnesses and evaluates `xstep` with those switches; on /repo HEAD all
+   five F4 switches are true.  The `false` branches document the historic
+   defects and let the check report a regression.
 
    Definitions only.  `xstep` repeats the structure of `Tracker.step` line by
    line; C09/LemmasX.v proves that it IS `Tracker.step` whenever none of the
-   new features is in play, so every theorem about `step` carries over. *)
+   new features is in play (fix_iv = false), and C09/LemmasR.v (`xstep_room`)
+   that for ANY fix_cap / fix_iv it is `Tracker.step` on every call that has
+   room under the cap and does not take the branch added by afd312c
+   (`iv_branch`), so every theorem about `step` carries over to the current
+   configuration on those calls. *)
 From Coq Require Import List Arith Bool ZArith QArith.
 Import ListNotations.
 From SV Require Import C09.Tracker.
@@ -230,9 +240,42 @@ Definition ans_validx (M : matrix) (n m : nat) (a : answer) : bool :=
   | APairs p => matchb n m p && (match p with [] => (n =? 0) || (m =? 0) || all_nan M n m | _ => true end)
   end.
 
+(* the premise of C09's operative theorem (`c09x_repaired_full_any_matcher`) at a
+   call, as a boolean the harness evaluates inside Coq on every recorded call:
+   if the matcher was consulted it returned an answer, and the answer is a
+   one-to-one assignment inside the (detections x current tracks) matrix *)
+Definition valid_ansb (X : xconfig) (st : state) (f : frame) : bool :=
+  is_init (base X) st ||
+  match f_answer f with
+  | APairs p => matchb (length (f_dets f)) (length (cur st)) p
+  | AFail => false
+  end.
+
+(* the call takes the branch afd312c added to update_tracks (no pair matched
+   although a detection is above the threshold: treat the frame like a first
+   frame).  It is the only place where `xstep` with fix_iv = true differs from
+   `Tracker.step` (C09/LemmasR.v, xstep_room). *)
+Definition iv_branch (X : xconfig) (st : state) (f : frame) : bool :=
+  fix_iv X && negb (is_init (base X) st) &&
+  negb (scores_raise (base X) st (length (f_dets f))) &&
+  match f_answer f with
+  | APairs p => negb (guard (base X) p) && existsb snd (f_dets f)
+  | AFail => false
+  end.
+
+(* room under the cap at a call: the tracks that exist plus the new tracks the
+   call asks for do not exceed max_tracks (premise of the conservativity lemma
+   `xstep_room` and of C10's identity theorem for the widened tracker) *)
+Definition cap_roomb (X : xconfig) (st : state) (f : frame) : bool :=
+  match cap_of X with
+  | Some k => length (cur st) + need X st f <=? k
+  | None => true
+  end.
+
 (* ---------------------------------------------------------------------- *)
 (* evaluation for the harness: like Tracker.run_checked_from, with the checks
-   [scoring; nan pattern; answer valid; greedy run; F4i; F4ii; F4iii; F4cap; F4iv; all_nan] *)
+   [scoring; nan pattern; answer valid; greedy run; F4i; F4ii; F4iii; F4cap; F4iv; all_nan;
+    valid_ansb; iv_branch; cap_roomb] *)
 
 Definition xscoring (X : xconfig) (st : state) : bool :=
   feat_ok X && negb (is_init (base X) st) && score_ok X && red_ok X.
@@ -255,7 +298,10 @@ Definition xstep_checks (X : xconfig) (st : state) (f : frame) : list bool :=
     scoring && sel_F4iii cfg st;
     feat_ok X && (negb scoring || matched) && sel_cap X st f;
     matched && sel_iv X st f;
-    matched && (0 <? n) && (0 <? m) && all_nan M n m ].
+    matched && (0 <? n) && (0 <? m) && all_nan M n m;
+    valid_ansb X st f;
+    matched && iv_branch X st f;
+    cap_roomb X st f ].
 
 Fixpoint xrun_checked_from (X : xconfig) (st : state) (h : list frame)
   : list (outcome * list bool * list (list nat)) :=
